@@ -373,6 +373,64 @@ fn check_history(report: &Report, rt: &Arc<tokio::runtime::Runtime>, hist: &[H])
             }
         }
     }
+    {
+        let events = thread_events(&fx, &thread);
+        let failed = events.iter().filter(|e| matches!(&e.kind, EventKind::ContinuityJobEnded { status, .. } if status != "completed")).count();
+        if failed > 0 {
+            report.count("jobs_that_ended_failed", failed as u64);
+        }
+    }
+    // every checkpoint frame of the thread - manual or from a job - references a readable summary
+    // whose coverage is this thread up to the frame's to_seq
+    {
+        let events = thread_events(&fx, &thread);
+        for e in &events {
+            if let EventKind::ContinuityCompactionCheckpointCreated { checkpoint_id, summary_artifact_id, to_seq, .. } = &e.kind {
+                report.eval(None::<&u8>);
+                match summary_markdown(&fx, summary_artifact_id) {
+                    None => report.violation("C09:summary_unreadable", case_json(hist, json!({"checkpoint_id": checkpoint_id})), &format!("summary artifact {summary_artifact_id} of the checkpoint at to_seq {to_seq} is missing or unreadable")),
+                    Some((_, v)) => {
+                        let cov_thread = v.pointer("/coverage/thread_id").and_then(|x| x.as_str()).unwrap_or("");
+                        let cov_seq = v.pointer("/coverage/to_seq").and_then(|x| x.as_u64());
+                        if cov_thread != thread || cov_seq != Some(*to_seq) {
+                            report.violation(
+                                "C09:summary_coverage",
+                                case_json(hist, json!({"checkpoint_seq": e.seq})),
+                                &format!("checkpoint frame seq {} (to_seq {to_seq}) references summary {summary_artifact_id} whose coverage is {cov_thread}@{cov_seq:?}, not {thread}@{to_seq}", e.seq),
+                            );
+                        }
+                    }
+                }
+            }
+        }
+    }
+    // the in-flight job the status reports is the newest summarizer job that was spawned and has
+    // not ended - however it ended
+    {
+        let events = thread_events(&fx, &thread);
+        let mut ended = std::collections::HashSet::new();
+        let mut open: Option<String> = None;
+        for e in events.iter().rev() {
+            match &e.kind {
+                EventKind::ContinuityJobEnded { job_id, .. } => {
+                    ended.insert(job_id.clone());
+                }
+                EventKind::ContinuityJobSpawned { job_id, .. } if !ended.contains(job_id) && open.is_none() => open = Some(job_id.clone()),
+                _ => {}
+            }
+        }
+        for (label, f) in [("warm", fx.copy(true)), ("without_caches", fx.copy(false))] {
+            report.eval(None::<&u8>);
+            match f.store().compaction_status_v1(&thread, ripd::CompactionStatusV1Request { stride_messages: Some(1) }) {
+                Ok(st) => {
+                    if st.inflight_job_id != open {
+                        report.violation("C09:inflight_job", case_json(hist, json!({"authority": label})), &format!("status reports inflight_job_id {:?}; by the log the newest spawned-and-not-ended job is {:?}", st.inflight_job_id, open));
+                    }
+                }
+                Err(e) => report.violation("C09:status_error", case_json(hist, json!({"authority": label})), &format!("compaction status failed: {e}")),
+            }
+        }
+    }
     check_cut_points(report, &fx, &thread, hist);
     for (stride, max_new) in [(1u64, 1u32), (2, 2), (3, 33)] {
         let probe = fx.copy(true);
@@ -442,6 +500,24 @@ pub fn run(opts: Opts) -> i32 {
         }
         let sp2 = H::SpawnJobOnly { stride: 1 };
         hs.push(vec![H::Msg, H::Msg, sp2.clone(), sp2.clone(), sp2, run.clone(), run.clone(), run]);
+    }
+    // a job that fails after its spawn, and manual checkpoints that name an existing summary:
+    // every history of <= 2 ops of the base alphabet around them
+    {
+        let special = [H::FailingAuto { stride: 1 }, H::FailingAuto { stride: 2 }, H::CkptReuse(0), H::CkptReuse(1)];
+        let around: Vec<H> = vec![H::Msg, H::Run, H::Ckpt(0), H::Ckpt(1), H::Auto { stride: 1, max_new: 1, dry: false }, H::Sched { stride: 1, max_new: 1, block: true, execute: true, dry: false }, H::Sched { stride: 2, max_new: 1, block: true, execute: false, dry: false }];
+        for sp in &special {
+            for pre in sequences(&around, 2).into_iter().filter(|h| h.iter().any(|o| matches!(o, H::Msg | H::Run))) {
+                let mut h = pre.clone();
+                h.push(sp.clone());
+                hs.push(h.clone());
+                for post in &around {
+                    let mut h2 = h.clone();
+                    h2.push(post.clone());
+                    hs.push(h2);
+                }
+            }
+        }
     }
     report.set_extra("histories", json!(hs.len()));
     report.sample(json!({"history": hs[100.min(hs.len() - 1)].iter().map(name).collect::<Vec<_>>()}));
